@@ -274,6 +274,7 @@ class TermIndex:
         self.idx, self.idx_ids = [], set()
         self.fold_apps, self.map_apps = [], []
         self.new_nth = []          # (base, k) pairs not yet given to the lemma generator
+        self.all_nth = []          # every (base, k) pair seen
         self.seq_eqs = []          # sequence equalities anywhere in the boolean structure
         self.new_seq_eqs = []
         self.top_eqs = []          # sequence equalities at the top level (asserted)
@@ -328,6 +329,7 @@ class TermIndex:
                 for b in if_branches(base):
                     self.usage.setdefault(b.get_id(), []).append(ix)
                 self.new_nth.append((base, ix))
+                self.all_nth.append((base, ix))
             elif k == z3.Z3_OP_SEQ_EXTRACT:
                 a1, a2 = x.arg(1), x.arg(2)
                 self.add_idx(a1)
@@ -364,6 +366,7 @@ class TermIndex:
                     for b in if_branches(base):
                         self.usage.setdefault(b.get_id(), []).append(ix)
                     self.new_nth.append((base, ix))
+                    self.all_nth.append((base, ix))
             for i in range(n):
                 stack.append(x.arg(i))
 
@@ -394,6 +397,62 @@ class TermIndex:
                             self.members[lst[i].get_id()] = lst[i]
                             self.members[lst[j].get_id()] = lst[j]
                             self.union(lst[i].get_id(), lst[j].get_id())
+
+    def deep_congruence(self):
+        """Congruence through datatype constructors / accessors and uninterpreted applications: two indexed sequences
+        (or fold / map applications) whose structure is equal up to the known sequence equalities are put in one class.
+        Needed when a fold's initial state is a tuple built from a sequence that is only *equal* (by an invariant) to
+        the one in the callee's contract:  fold(xs, n, (empty, bg), ...)  vs  fold(xs, n, (empty, flat(i)[1]), ...)."""
+        terms = {}
+        for a in self.fold_apps + self.map_apps:
+            terms[a.get_id()] = a
+        for (base, _ix) in self.all_nth:
+            for b in if_branches(base):
+                terms[b.get_id()] = b
+        for _ in range(2):
+            memo = {}
+
+            def key(t, depth=0):
+                tid = t.get_id()
+                mk = (tid, depth > 0)
+                if mk in memo:
+                    return memo[mk]
+                r = self.find(tid)
+                if depth > 6 or not z3.is_app(t) or t.num_args() == 0 or (depth > 0 and z3.is_seq(t)):
+                    # a sequence-valued argument is identified by its equality class (the class representative may
+                    # itself be a structured term, so the structure must not be preferred here)
+                    k = ("c", r)
+                else:
+                    kind = t.decl().kind()
+                    if kind in (z3.Z3_OP_UNINTERPRETED, z3.Z3_OP_DT_CONSTRUCTOR, z3.Z3_OP_DT_ACCESSOR, z3.Z3_OP_SEQ_CONCAT):
+                        k = ("a", t.decl().name(), tuple(key(t.arg(i), depth + 1) for i in range(t.num_args())))
+                    else:
+                        k = ("c", r)
+                memo[mk] = k
+                return k
+            groups = {}
+            for tid, t in terms.items():
+                k = key(t)
+                if k[0] == "a":
+                    groups.setdefault(k, []).append(t)
+            changed = False
+            if os.environ.get("PYVC_DEBUG_CONG"):
+                for tid_, t_ in terms.items():
+                    if "fold_rule_step_0" in str(t_)[:70]:
+                        print("   TERM", tid_, t_.decl().name(), str(key(t_))[:60], "nth-bases:", sum(1 for b_, _ in self.all_nth if b_.get_id() == tid_))
+                print("deep_congruence: terms", len(terms), "groups", len(groups), "multi", sum(1 for l in groups.values() if len(l) > 1))
+                for k, l in groups.items():
+                    if k[1] == "fold_rule_step_0" or (k[1].endswith("_i0") and "fold_rule_step_0" in str(k)[:80]):
+                        print("   KEY size", len(l), [x.get_id() for x in l], [self.find(x.get_id()) for x in l], str(k)[:200])
+            for lst in groups.values():
+                for t in lst[1:]:
+                    if self.find(t.get_id()) != self.find(lst[0].get_id()):
+                        self.members[t.get_id()] = t
+                        self.members[lst[0].get_id()] = lst[0]
+                        self.union(t.get_id(), lst[0].get_id())
+                        changed = True
+            if not changed:
+                break
 
     def by_class(self):
         out = {}
@@ -450,6 +509,7 @@ def prepare_query(reg: Registry, hyps, goal, extra_terms=(), level=0):
     sk_int = [t for t in sk if t.sort() == INT]
     for rnd in range(INST_ROUNDS if level == 0 else min(INST_ROUNDS, 3)):
         ix.congruence()
+        ix.deep_congruence()
         find = ix.find
         by_class = ix.by_class()
         usage = ix.usage
@@ -893,6 +953,11 @@ class FunctionVerifier:
                 st.set_cell(st.env["_yielded"], ListCell(rt.elem, z3.Empty(rt.sort())))
         ex.cur_serves = ["C01"]
         results = ex.exec_block(st, self.fi.node.body)
+        # vacuity guard: at least one path through the body must be feasible (otherwise every obligation of the
+        # function is discharged from a contradiction among preconditions, class invariants and assumed callee contracts)
+        if results and all(solve.quick_unsat([h for _, h in s.pc], timeout_ms=1500) for s, _oc in results[:40]) \
+                and len(results) <= 40:
+            raise EngineUnsupported(f"no feasible path through {self.qual} (variant {vi}): vacuous verification")
         for s, oc in results:
             if oc.kind in (Outcome.NORMAL, Outcome.RETURN):
                 result = oc.value if oc.kind == Outcome.RETURN else VNone
